@@ -74,8 +74,61 @@ def apalache(ck):
                                   "inductive step is bounded by Gen(5) messages / Gen(8) assigned UIDs", "runs": res}
 
 
+def _vv(seed):
+    from harness import vvrace
+    try:
+        return seed, vvrace.execute(seed), None
+    except BaseException:
+        import traceback
+        return seed, None, traceback.format_exc()[-1500:]
+
+
+def vvrace_stage(ck):
+    """Mailboxes created concurrently by several sessions, names then freed and taken again: the recorded
+    (name, UIDVALIDITY, incarnation) observations are validated by TLC (spec/TraceVv.tla)."""
+    import json, multiprocessing as mp, shutil, tempfile
+    from harness import tlc
+    n = 400 if ck.tier == "thorough" else 60
+    seeds = [ck.seed * 100000 + 70000 + i for i in range(n)]
+    with mp.get_context("fork").Pool(14) as pool:
+        res = pool.map(_vv, seeds, chunksize=2)
+    runs, origin = [], []
+    for seed, out, err in res:
+        if err:
+            raise RuntimeError(f"vvrace harness failure seed {seed}: {err}")
+        obs, log = out
+        runs.append(obs)
+        origin.append((seed, log))
+    tmp = tempfile.mkdtemp(prefix="verif-vv-")
+    try:
+        p = os.path.join(tmp, "vv.json")
+        json.dump(runs, open(p, "w"))
+        r = tlc.run("TraceVv", "SPECIFICATION Spec\nCHECK_DEADLOCK FALSE\n", env={"TRACE_FILE": p}, workers=1, timeout=1800)
+        if r.rc != 0:
+            raise RuntimeError(f"TraceVv failed: {r.error or r.out[-800:]}")
+        done = {pr[1] for pr in r.prints if pr and pr[0] == "DONE"}
+        if len(done) != len(runs):
+            raise RuntimeError("TraceVv did not consume every run")
+        ck.cov["states"] += r.distinct
+        ck.cov["transitions"] += r.generated
+        ck.cov["concurrent_create_runs"] = len(runs)
+        ck.cov["concurrent_create_observations"] = sum(len(x) for x in runs)
+        ck.cov["concurrent_create_runs_with_name_reuse"] = sum(1 for x in runs if len({(o["name"], o["inc"]) for o in x}) > len({o["name"] for o in x}))
+        for pr in r.prints:
+            if pr and pr[0] == "VIOL":
+                seed, log = origin[pr[1] - 1]
+                o = runs[pr[1] - 1][pr[2] - 1]
+                ck.violation(pr[3], act="Create||Create", where=f"vvrace seed {seed}",
+                             detail=json.dumps({"observed": o, "history": log})[:600],
+                             replay_obj={"harness": "harness/vvrace.py", "seed": seed, "observations": runs[pr[1] - 1], "history": log})
+    finally:
+        shutil.rmtree(tmp, ignore_errors=True)
+
+
 def fn(ck, a):
     mailfam.run_family(ck, ["C02."], model_prop="P_C0203", quick=QUICK, thorough=THOROUGH)
+    if not getattr(ck, "replay_path", None):
+        vvrace_stage(ck)
     apalache(ck)
 
 if __name__ == "__main__":
